@@ -8,7 +8,8 @@
    count = #undisposed dependents + #dispose()s of dependents in progress, is_disposed = primary
    and count = 0, and (#dispose() of the underlying) + (#threads about to call it) = is_disposed.
    Models tied to /repo by harness/props/C27.py. *)
-From RxVerif Require Import Base.Prelude Core.Disposables Core.DisposablesFacts Core.DispConc Core.DispConcFacts.
+From RxVerif Require Import Base.Prelude Core.Disposables Core.DisposablesFacts Core.DispConc Core.DispConcFacts
+  Core.RefCountOnce Core.RefCountOnceFacts.
 
 (* ---- one thread: all call histories ------------------------------------------ *)
 Local Open Scope nat_scope.
@@ -139,3 +140,46 @@ Example C27_witness_race :
 Proof. vm_compute. repeat split. Qed.
 Example C27_witness_no_primary_hyp : forall p, In p [[RGet; RDispDep 0%nat]] -> ~ In RDispose p.
 Proof. intros p [<-|[]]. intros [X|[X|[]]]; discriminate X. Qed.
+
+(* ---- one release() per dependent, all schedules ---------------------------------- *)
+Local Close Scope Z_scope.
+Local Open Scope nat_scope.
+
+(* DOUBLE DISPOSE under concurrency: however many threads dispose the k-th handle handed out, and
+   however their actions interleave with each other and with everything else, parent.release() is
+   entered for it at most once ([rc_release_calls] counts the scheduled steps that take the handle's
+   parent link; InnerDisposable.dispose reads and clears the link in ONE locked block) *)
+Theorem C27_release_at_most_once_per_dependent :
+  forall progs sched k, rc_release_calls progs sched k <= 1.
+Proof. exact rc_release_at_most_once. Qed.
+Print Assumptions C27_release_at_most_once_per_dependent.
+
+(* ... exactly once iff some dispose() of that handle executed its locked block and the handle is an
+   InnerDisposable (not the inert Disposable() handed out after the release) *)
+Theorem C27_release_exactly_when_parent_taken :
+  forall progs sched k,
+  rc_release_calls progs sched k = bnat (parentless (c_sh (rc_run progs sched)) k).
+Proof. exact rc_release_exactly. Qed.
+Print Assumptions C27_release_exactly_when_parent_taken.
+
+(* ... and after it was entered, no continuation of the schedule enters it again *)
+Theorem C27_release_never_again :
+  forall progs s1 s2 k,
+  rc_release_calls progs s1 k = 1 -> release_calls (rc_run progs s1) s2 k = 0.
+Proof. exact rc_release_never_again. Qed.
+Print Assumptions C27_release_never_again.
+
+(* non-vacuity: three threads dispose the SAME dependent (thread 2 runs its locked block between the
+   locked block of thread 1 and thread 1's release()), a second dependent is never disposed: one
+   release() for handle 0, none for handle 1, the underlying item is not disposed although the
+   primary is *)
+Example C27_witness_same_dependent_three_threads :
+  let progs := [[RGet; RGet]; [RDispDep 0]; [RDispDep 0]; [RDispDep 0; RDispose]] in
+  let sched := [0; 0; 1; 2; 3; 1; 1; 3; 3] in
+  rc_release_profile progs sched 2 = [1; 0] /\ quiescent (rc_run progs sched) = true /\
+  c_log (rc_run progs sched) = [] /\ r_primary (c_sh (rc_run progs sched)) = true /\
+  r_count (c_sh (rc_run progs sched)) = 1%Z.
+Proof. vm_compute. repeat split. Qed.
+Example C27_witness_release_never_again_hyp :
+  rc_release_calls [[RGet]; [RDispDep 0]; [RDispDep 0]] [0; 1] 0 = 1.
+Proof. vm_compute. reflexivity. Qed.
